@@ -206,6 +206,10 @@ def exercise(c: gen.Compiled, seed: int, n_calls: int, pydantic: bool = False):
                         n_req = n_rep = rng.choice([2, 3, 5])
                     mode[py] = "interleaved" if pingpong else "batch"
                     reqs = [make_value(req_t) for _ in range(n_req)]
+                    if n_req >= 2 and rng.random() < 0.35:
+                        # the very same message OBJECT sent several times (a retry loop, a heartbeat): [a, a, a] / [a, b, a]
+                        reqs = [reqs[0]] * n_req if rng.random() < 0.5 else [reqs[i % 2] for i in range(n_req - 1)] + [reqs[0]]
+                        stats["labels"].add("request_stream_repeats_one_object")
                     reps = [make_value(rep_t) for _ in range(n_rep)]
                     plan[py] = reps
                     log.clear()
@@ -221,7 +225,13 @@ def exercise(c: gen.Compiled, seed: int, n_calls: int, pydantic: bool = False):
                         fails.append(("stub_method_missing", card.name, f"{sname}Stub.{py} (route {route})"))
                         continue
                     kw = {k: v for k, v in call_opts.items() if v is not None or rng.random() < 0.5}
-                    arg = (reqs if rng.random() < 0.5 else _aiter(reqs)) if cs else reqs[0]
+                    if cs:
+                        shape = rng.choice(["list", "tuple", "generator", "async_iterator", "async_iterator"])
+                        arg = {"list": lambda: list(reqs), "tuple": lambda: tuple(reqs), "generator": lambda: (r for r in reqs),
+                               "async_iterator": lambda: _aiter(reqs)}[shape]()
+                        stats["labels"].add(f"request_stream_as:{shape}")
+                    else:
+                        arg = reqs[0]
                     got_reps, err = None, None
                     if pingpong:
                         # a conversation: request k+1 is only produced after response k has arrived
